@@ -100,7 +100,7 @@ def run(ctx):
             ctx.evaluations += 1
     # TRACE: seeded whole sections with all kinds interleaved, long values, inner quotes; lists are file-order filters
     for j in range(ctx.pick(300, 6000)):
-        n = r.choice([1, 2, 3, 4, 8, 20]) if j % 60 else r.choice(ctx.pick([150, 400], [300, 1200]))      # (a few long sections)
+        n = r.choice([1, 2, 3, 4, 8, 20]) if j % ctx.pick(60, 500) else r.choice(ctx.pick([150, 400], [300, 800]))      # (a few long sections)
         lines, tick = [], r.choice([0, 5])
         for _ in range(n):
             kind = r.choice(["lyric", "section", "text"])
